@@ -565,8 +565,8 @@ func (s *State) evalIndexRangeExpression(left object.Object, leftIdx, rightIdx a
 	if l > r {
 		return s.NewError("range index invalid: left greater then right")
 	}
-	l = min(l, int64(num))
-	r = min(r, int64(num))
+	l = min(max(l, 0), int64(num))
+	r = min(max(r, 0), int64(num))
 	switch left.Type() {
 	case object.STRING:
 		str := left.(object.String).Value
